@@ -2,6 +2,7 @@ import Driver.Util
 import SuitVerif.Encode
 import SuitVerif.Generated.Schema
 import SuitVerif.Generated.Guards
+import SuitVerif.Registry
 import SuitVerif.Hash.Sha2
 import SuitVerif.Hash.Keccak
 open Lean SuitVerif SuitVerif.Py
@@ -89,6 +90,25 @@ def handle (op : String) (j : Json) : Option (M Json) :=
         | .error e => errJ ("parse:" ++ errName e)
         | .ok o => match Encode.createTop cx o with
           | .ok b' => okHex b' | .error e => errJ ("create:" ++ errName e))
+  | "suit.encode" => some do
+      -- from_obj(desc).to_cbor() for an arbitrary class of the schema
+      let cx ← ctxOf j
+      let o ← objOfJ (← field j "desc")
+      let c ← natField j "cls"
+      pure (match Encode.fromObj cx (Encode.objBudget cx.schema o) c o with
+        | .ok n => okHex n.toBytes | .error e => errJ (errName e))
+  | "suit.decode" => some do
+      -- from_cbor(bytes).to_obj() for an arbitrary class of the schema
+      let b ← hexField j "bytes"
+      let c ← natField j "cls"
+      pure (match Decode.fromBytes Generated.guards Generated.schema (Decode.budget Generated.schema b) c b with
+        | .ok n => okJ (jOfObj (Decode.toObj n)) | .error e => errJ (errName e))
+  | "registry" => some do
+      pure (okJ (Json.mkObj [
+        ("spaces", .arr (Registry.spaces.map (fun sp => Json.arr #[.str sp.1,
+            .arr (sp.2.map (fun e => Json.arr #[.str e.1, intJ e.2])).toArray])).toArray),
+        ("tags", .arr (Registry.tags.map (fun t => Json.arr #[.str t.1, natJ t.2])).toArray),
+        ("hash_lengths", .arr (Registry.hashLengths.map (fun t => Json.arr #[.str t.1, natJ t.2])).toArray)]))
   | "suit.hash" => some do
       pure (okHex (hashFn (← strField j "alg") (← hexField j "data")))
   | _ => none
